@@ -3051,6 +3051,12 @@ impl<'a> QueryServerWriteTransaction<'a> {
         #[cfg(feature = "verif-hooks")]
         crate::verif::txn::pause("w.ts_max");
         be_txn.set_db_ts_max(cid.ts)?;
+
+        // Flush and commit the database BEFORE any in-memory publication. Every step below is
+        // infallible, so a storage failure can no longer leave schema / domain / access control
+        // state visible to readers that the rolled-back database does not contain.
+        be_txn.commit()?;
+
         #[cfg(feature = "verif-hooks")]
         crate::verif::txn::pause("w.cid");
         cid.commit();
@@ -3077,7 +3083,6 @@ impl<'a> QueryServerWriteTransaction<'a> {
             .map(|_| dyngroup_cache.commit())
             .and_then(|_| key_providers.commit())
             .and_then(|_| accesscontrols.commit())
-            .and_then(|_| be_txn.commit())
     }
 
     pub(crate) fn get_txn_cid(&self) -> &Cid {
